@@ -201,9 +201,17 @@ func NormalizeIdentity(tID *Identity, altCodes ...l10n.Code) {
 	}
 	code := strings.ToUpper(tID.Code.String())
 	code = IdentityCodeBadCharsRegexp.ReplaceAllString(code, "")
-	code = strings.TrimPrefix(code, string(tID.Country))
-	for _, alt := range altCodes {
-		code = strings.TrimPrefix(code, string(alt))
+	// remove country prefixes until none is left, so that normalising the
+	// result again makes no difference (e.g. "ESESB98602642")
+	for {
+		trimmed := strings.TrimPrefix(code, string(tID.Country))
+		for _, alt := range altCodes {
+			trimmed = strings.TrimPrefix(trimmed, string(alt))
+		}
+		if trimmed == code || tID.Country == "" && len(altCodes) == 0 {
+			break
+		}
+		code = trimmed
 	}
 	tID.Code = cbc.Code(code)
 }
